@@ -161,7 +161,12 @@ func JSONGetTime(val *fastjson.Value, prop string) time.Time {
 	}
 
 	if str := val.Get(prop).GetStringBytes(); len(str) > 0 {
-		t.UnmarshalText(str)
+		if err := t.UnmarshalText(str); err != nil {
+			// ActivityStreams lets a document leave out the seconds: "2014-12-12T12:12Z"
+			if short, err := time.Parse("2006-01-02T15:04Z07:00", string(str)); err == nil {
+				t = short
+			}
+		}
 		return t.UTC()
 	}
 	return t
